@@ -218,6 +218,9 @@ func cmdC01Gen(args []string) {
 				if got := len(dedup(m.Config().Origins)); got != c.N {
 					elemsDrift.Add(1)
 				}
+				if len(pats)%3 == 0 {
+					noise(m) // state-preserving operations (see life.go) on a third of the cases
+				}
 				h := m.Wrap(okHandler)
 				var h2 http.Handler
 				if *roundtrip {
@@ -579,6 +582,7 @@ func cmdC01Rand(args []string) {
 				DangerouslyTolerateSubdomainsOfPublicSuffixes: true,
 			},
 		})
+		noise(m)
 		if err != nil {
 			rejected++
 			t.emit(map[string]any{"ev": "Rejected", "patterns": strs, "err": err.Error()})
@@ -655,6 +659,8 @@ func cmdC03Gen(args []string) {
 	if err != nil {
 		fatal("c03gen config: %v", err)
 	}
+	noise(m)
+	noise(anyMW)
 	h, hany := m.Wrap(okHandler), anyMW.Wrap(okHandler)
 	var evals, members, drift, f4 int
 	var violations, drifts []map[string]any
